@@ -59,6 +59,7 @@ import Kodama.Spec.Naive
 import Mathlib.Algebra.Order.Field.Rat
 import Mathlib.Tactic.NormNum.Basic
 import Kodama.Lemmas.FieldInstances
+import Kodama.Lemmas.AverageExact
 import Kodama.Props.C03
 namespace Kodama
 open Crit Finset
@@ -110,7 +111,8 @@ theorem C02_average_recurrence (L : FieldLaws K) (sAX sBX : K) (na nb nx : Nat)
     (ha : 0 < na) (hb : 0 < nb) (hx : 0 < nx) :
     Gen.average (sAX / ((na : K) * nx)) (sBX / ((nb : K) * nx)) na nb
       = (sAX + sBX) / (((na : K) + nb) * nx) := by
-  simp only [Gen.average, L.add, L.mul, L.div, L.ofNat]
+  -- exact arithmetic, positive sizes: the clamp of `method::average` is a no-op
+  rw [L.average_eq_mean _ _ na nb (by omega)]
   have h1 := cast_ne (K := K) ha
   have h2 := cast_ne (K := K) hb
   have h3 := cast_ne (K := K) hx
@@ -329,7 +331,7 @@ example : @FieldLaws ℚ _ _ (fieldNum ℚ) ∧ @OrderNum ℚ _ (fieldNum ℚ) :
 example : @Gen.single ℚ (fieldNum ℚ) 3 5 = 3 ∧ @Gen.complete ℚ (fieldNum ℚ) 3 5 = 5 := by
   norm_num [Gen.single, Gen.complete, fieldNumWith, Num.lt]
 example : @Gen.average ℚ (fieldNum ℚ) 3 5 1 2 = 13 / 3 := by
-  norm_num [Gen.average, fieldNumWith, Num.add, Num.mul, Num.div, Num.ofNat]
+  norm_num [Gen.average, fieldNumWith, Num.add, Num.mul, Num.div, Num.ofNat, Num.lt]
 example : @Gen.weighted ℚ (fieldNum ℚ) 3 5 = 4 := by
   norm_num [Gen.weighted, fieldNumWith, Num.add, Num.mul, Num.half]
 example : @Gen.median ℚ (fieldNum ℚ) 3 5 4 = 3 := by
